@@ -360,6 +360,26 @@ let () =
        (* C18: what comes back through the data URL is what the serialised bytes decode to *)
        let prop = Some (via_url = direct && String.length direct >= 2 && String.sub direct 0 2 = "ok") in
        count true prop; verdict id true prop ("preamble=" ^ preamble)
+     | [id; "roundtrip"; kind; before; after; idem; detected; shape; mp; dbg; impl_obs] ->
+       (* C01 / C03 / C18: a whole map (regular, index, Hermes) written and read back.
+          before/after: id-independent observations computed by the harness (views deduplicated there);
+          idem: 2nd and 3rd serialisation byte-identical; detected: is_sourcemap_slice on the written bytes;
+          shape: key structure of the written JSON, recursively through sections *)
+       let find_all re str = let rec go pos acc = (match (try Some (Str.search_forward re str pos) with Not_found -> None) with
+           | Some k -> go (k + 1) (Str.matched_group 1 str :: acc) | None -> List.rev acc) in go 0 [] in
+       let has sub str = (try ignore (Str.search_forward (Str.regexp_string sub) str 0); true with Not_found -> false) in
+       let offs_written = find_all (Str.regexp "<\\([0-9]+:[0-9]+\\):") shape and offs_before = find_all (Str.regexp "(\\([0-9]+:[0-9]+\\):") before in
+       let versions = find_all (Str.regexp "{v=\\([^ ]*\\) ") shape in
+       let shape_ok = not (has ":null" shape) && List.for_all (fun v -> v = "3") versions && versions <> [] && offs_written = offs_before in
+       let prop = Some (before = after && idem = "1" && detected = "1" && shape_ok && before <> "panic") in
+       let corr = (if kind = "regular" && mp <> "-" then
+           let m0 = map_of_string mp in
+           let m = if dbg = "1" then { m0 with sm_debug_id = Some (z_small 7) } else m0 in
+           (match decode_common (S (S O)) (sm_as_raw m) with
+            | Ok (DRegular m') -> obs_of_map m' = impl_obs
+            | _ -> impl_obs = "err")
+         else true) in
+       count corr prop; verdict id corr prop (if before <> after then "observation-changed" else if idem <> "1" then "not-idempotent" else if detected <> "1" then "not-detected" else if not shape_ok then "bad-key-shape" else "same")
      | [id; "keys"; mp; dbg; impl] ->
        (* C03: a key is written exactly when the map has a value for it; version and sources always *)
        let m0 = map_of_string mp in
